@@ -8,9 +8,104 @@ Local Open Scope Z_scope.
 
 Definition KI (k : kernel) : Prop := forall fd, k_get k fd <> None -> fd < next_fd k.
 
+(* pipes come in pairs; the write end knows whether the read end is still open *)
+Definition ispipe (v : vfd) : Prop := vkind v = K_PIPE_R \/ vkind v = K_PIPE_W.
+Definition PS (k : kernel) : Prop := forall fd v, k_get k fd = Some v -> ispipe v ->
+  1000 <= fd /\ 1000 <= vpeer v /\ exists p, k_get k (vpeer v) = Some p /\ vpeer p = fd /\
+    ((vkind v = K_PIPE_W /\ vkind p = K_PIPE_R) \/ (vkind v = K_PIPE_R /\ vkind p = K_PIPE_W)) /\
+    (vkind v = K_PIPE_W -> vpeer_open v = negb (vclosed p)).
+(* every interest entry is enabled *)
+Definition KEn (k : kernel) : Prop := forall e, In e (ep k) -> en_enabled e = true.
+Definition KP (k : kernel) : Prop := KI k /\ PS k /\ 1000 <= next_fd k /\ KEn k.
+
+Definition shape (v' v : vfd) : Prop :=
+  vkind v' = vkind v /\ vpeer v' = vpeer v /\ vclosed v' = vclosed v /\ vpeer_open v' = vpeer_open v.
+
+Lemma ispipe_dec : forall v, ispipe v \/ ~ ispipe v.
+Proof.
+  intros v. unfold ispipe. destruct (Z.eq_dec (vkind v) K_PIPE_R); [left; auto|].
+  destruct (Z.eq_dec (vkind v) K_PIPE_W); [left; auto|right; tauto].
+Qed.
+
+Lemma PS_put_shape : forall k fd v v', PS k -> k_get k fd = Some v -> shape v' v -> PS (k_put k fd v').
+Proof.
+  intros k fd v v' P G (S1 & S2 & S3 & S4) x w GX IP. rewrite k_get_put in GX.
+  assert (PEER : forall y q, k_get k y = Some q -> exists q', k_get (k_put k fd v') y = Some q' /\ vpeer q' = vpeer q /\
+                   vkind q' = vkind q /\ vclosed q' = vclosed q).
+  { intros y q GY. rewrite k_get_put. destruct (Z.eqb_spec y fd) as [->|N]; [|exists q; auto].
+    rewrite G in GY. inversion GY; subst q. exists v'. auto. }
+  destruct (Z.eqb_spec x fd) as [->|N].
+  - inversion GX; subst w. assert (IP0 : ispipe v) by (unfold ispipe in *; rewrite <- S1; exact IP).
+    destruct (P fd v G IP0) as (A & B & p & GP & PP & KK & OO). rewrite S2.
+    split; [exact A|split; [exact B|]]. destruct (PEER _ _ GP) as (p' & GP' & E1 & E2 & E3).
+    exists p'. split; [exact GP'|]. split; [congruence|]. rewrite S1, S4, E2, E3. split; [exact KK|exact OO].
+  - destruct (P x w GX IP) as (A & B & p & GP & PP & KK & OO).
+    split; [exact A|split; [exact B|]]. destruct (PEER _ _ GP) as (p' & GP' & E1 & E2 & E3).
+    exists p'. split; [exact GP'|]. split; [congruence|]. rewrite E2, E3. split; [exact KK|exact OO].
+Qed.
+
+(* a descriptor that is not (and does not become) a pipe end *)
+Lemma PS_put_nonpipe : forall k fd v', PS k -> (forall v, k_get k fd = Some v -> ~ ispipe v) -> ~ ispipe v' ->
+  PS (k_put k fd v').
+Proof.
+  intros k fd v' P OLD NEW x w GX IP. rewrite k_get_put in GX.
+  destruct (Z.eqb_spec x fd) as [->|N]; [inversion GX; subst w; contradiction|].
+  destruct (P x w GX IP) as (A & B & p & GP & PP & KK & OO).
+  split; [exact A|split; [exact B|]]. exists p. rewrite k_get_put.
+  destruct (Z.eqb_spec (vpeer w) fd) as [E|NE]; [|auto].
+  exfalso. rewrite E in GP. apply (OLD p GP). unfold ispipe. destruct KK as [[_ K]|[_ K]]; auto.
+Qed.
+
+Lemma PS_fields : forall k k', vfds k' = vfds k -> PS k -> PS k'.
+Proof. intros k k' V P. unfold PS, k_get in *. rewrite V. exact P. Qed.
+
+Lemma PS_close : forall k fd, PS k -> PS (fst (k_close k fd)).
+Proof.
+  intros k fd P. unfold k_close. destruct (k_open k fd) as [v|] eqn:O; cbn [fst]; [|exact P].
+  apply k_open_get in O. destruct O as [G C].
+  apply (PS_fields (if (vkind v =? K_PIPE_R) || (vkind v =? K_PIPE_W)
+                    then match k_get (k_put k fd (with_closed v true)) (vpeer v) with
+                         | Some p => k_put (k_put k fd (with_closed v true)) (vpeer v) (with_peer p (vpeer p) false)
+                         | None => k_put k fd (with_closed v true) end
+                    else k_put k fd (with_closed v true))); [reflexivity|].
+  destruct ((vkind v =? K_PIPE_R) || (vkind v =? K_PIPE_W)) eqn:KD.
+  - assert (IP : ispipe v).
+    { apply orb_true_iff in KD. destruct KD as [E|E]; apply Z.eqb_eq in E; [left|right]; exact E. }
+    destruct (P fd v G IP) as (A & B & p & GP & PP & KK & OO).
+    assert (NE : vpeer v <> fd).
+    { intros E. rewrite E in GP. rewrite G in GP. inversion GP; subst p. destruct KK as [[K1 K2]|[K1 K2]]; rewrite K1 in K2; discriminate. }
+    rewrite k_get_put. destruct (Z.eqb_spec (vpeer v) fd) as [E|_]; [contradiction|]. rewrite GP.
+    (* both ends rewritten: fd closed, its peer told *)
+    intros x w GX IPX. rewrite !k_get_put in GX.
+    destruct (Z.eqb_spec x (vpeer v)) as [EX|NX].
+    + inversion GX; subst w x. cbn [vpeer with_peer vkind vpeer_open] in *.
+      split; [exact B|]. rewrite PP. split; [exact A|].
+      exists (with_closed v true). rewrite !k_get_put.
+      destruct (Z.eqb_spec fd (vpeer v)) as [E|_]; [congruence|]. rewrite Z.eqb_refl.
+      split; [reflexivity|]. split; [reflexivity|]. cbn [vkind with_closed vclosed].
+      split; [destruct KK as [[K1 K2]|[K1 K2]]; [right|left]; auto|]. intros _. reflexivity.
+    + destruct (Z.eqb_spec x fd) as [EX|NX2].
+      * inversion GX; subst w x. cbn [vpeer with_closed vkind vpeer_open vclosed] in *.
+        split; [exact A|split; [exact B|]]. exists (with_peer p (vpeer p) false). rewrite k_get_put, Z.eqb_refl.
+        split; [reflexivity|]. cbn [vpeer with_peer vkind vclosed]. split; [exact PP|]. split; [exact KK|exact OO].
+      * destruct (P x w GX IPX) as (A' & B' & q & GQ & QQ & KK' & OO').
+        split; [exact A'|split; [exact B'|]].
+        assert (Q1 : vpeer w <> vpeer v).
+        { intros E. rewrite E in GQ. rewrite GP in GQ. inversion GQ; subst q. congruence. }
+        assert (Q2 : vpeer w <> fd).
+        { intros E. rewrite E in GQ. rewrite G in GQ. inversion GQ; subst q.
+          destruct (P (vpeer v) p GP ltac:(unfold ispipe; destruct KK as [[_ K]|[_ K]]; auto)) as (_ & _ & p2 & GP2 & PP2 & _).
+          rewrite PP in GP2. rewrite G in GP2. inversion GP2; subst p2. congruence. }
+        exists q. rewrite !k_get_put. destruct (Z.eqb_spec (vpeer w) (vpeer v)); [contradiction|].
+        destruct (Z.eqb_spec (vpeer w) fd); [contradiction|]. auto.
+  - apply orb_false_iff in KD. destruct KD as [K1 K2]. apply Z.eqb_neq in K1. apply Z.eqb_neq in K2.
+    apply PS_put_nonpipe; [exact P|intros v0 G0; rewrite G in G0; inversion G0; subst v0; unfold ispipe; tauto|].
+    unfold ispipe. cbn [vkind with_closed]. tauto.
+Qed.
+
 (* counters of the dynamic descriptors other than those satisfying X are preserved *)
 Definition CNTx (X : Z -> Prop) (k k' : kernel) : Prop :=
-  KI k -> KI k' /\ next_fd k <= next_fd k' /\
+  KP k -> KP k' /\ next_fd k <= next_fd k' /\
   forall fd v, 1000 <= fd -> ~ X fd -> k_get k fd = Some v -> exists v', k_get k' fd = Some v' /\ vcnt v' = vcnt v.
 Definition CNT := CNTx (fun _ => False).
 
@@ -33,80 +128,119 @@ Qed.
 Lemma CNT_x : forall X k k', CNT k k' -> CNTx X k k'.
 Proof. intros X k k' H. apply (CNTx_weaken (fun _ => False)); [intros fd []|exact H]. Qed.
 
-Lemma CNT_fields : forall k k', vfds k' = vfds k -> next_fd k' = next_fd k -> CNT k k'.
+Lemma CNT_fields : forall k k', vfds k' = vfds k -> next_fd k' = next_fd k -> (KEn k -> KEn k') -> CNT k k'.
 Proof.
-  intros k k' V N H. unfold KI, k_get in *. rewrite V, N. split; [exact H|split; [lia|]].
-  intros fd v _ _ G. exists v. auto.
+  intros k k' V N KE (H & P & NX & EN). split; [|split; [lia|]].
+  - split; [|split; [eapply PS_fields; eassumption|split; [lia|apply KE; exact EN]]]. unfold KI, k_get in *. rewrite V, N. exact H.
+  - intros fd v _ _ G. exists v. unfold k_get in *. rewrite V. auto.
 Qed.
 
-(* writing a descriptor that exists, keeping its counter *)
-Lemma CNT_put_keep : forall k fd v v', k_get k fd = Some v -> vcnt v' = vcnt v -> CNT k (k_put k fd v').
+Lemma KI_put : forall k fd v', KI k -> fd < next_fd k -> KI (k_put k fd v').
 Proof.
-  intros k fd v v' G E H. split; [|split; [cbn; lia|]].
-  - intros x. rewrite k_get_put. change (next_fd (k_put k fd v')) with (next_fd k).
-    destruct (Z.eqb_spec x fd) as [->|N]; [intros _; apply H; congruence|apply H].
-  - intros x w _ _ GX. rewrite k_get_put. destruct (Z.eqb_spec x fd) as [->|N].
-    + exists v'. split; [reflexivity|congruence].
-    + exists w. auto.
+  intros k fd v' H L x. rewrite k_get_put. change (next_fd (k_put k fd v')) with (next_fd k).
+  destruct (Z.eqb_spec x fd) as [->|N]; [intros _; exact L|apply H].
 Qed.
 
-Lemma CNTx_put : forall k fd v v', k_get k fd = Some v -> CNTx (fun x => x = fd) k (k_put k fd v').
+(* rewriting an existing descriptor, keeping its shape (and counter, except for X) *)
+Lemma CNTx_put : forall k fd v v', k_get k fd = Some v -> shape v' v -> CNTx (fun x => x = fd) k (k_put k fd v').
 Proof.
-  intros k fd v v' G H. split; [|split; [cbn; lia|]].
-  - intros x. rewrite k_get_put. change (next_fd (k_put k fd v')) with (next_fd k).
-    destruct (Z.eqb_spec x fd) as [->|N]; [intros _; apply H; congruence|apply H].
-  - intros x w _ NX GX. rewrite k_get_put. destruct (Z.eqb_spec x fd) as [->|N]; [contradiction NX; reflexivity|].
+  intros k fd v v' G SH (H & P & NX & EN). split; [|split; [cbn; lia|]].
+  - split; [apply KI_put; [exact H|apply H; congruence]|]. split; [eapply PS_put_shape; eassumption|split; [exact NX|exact EN]].
+  - intros x w _ NXX GX. rewrite k_get_put. destruct (Z.eqb_spec x fd) as [->|N]; [contradiction NXX; reflexivity|].
     exists w. auto.
 Qed.
 
-Lemma CNT_put_low : forall k fd v', fd < 1000 -> 1000 <= next_fd k -> CNT k (k_put k fd v').
+Lemma CNT_put_keep : forall k fd v v', k_get k fd = Some v -> shape v' v -> vcnt v' = vcnt v -> CNT k (k_put k fd v').
 Proof.
-  intros k fd v' L NX H. split; [|split; [cbn; lia|]].
-  - intros x. rewrite k_get_put. change (next_fd (k_put k fd v')) with (next_fd k).
-    destruct (Z.eqb_spec x fd) as [->|N]; [intros _; lia|apply H].
+  intros k fd v v' G SH E K. destruct (CNTx_put k fd v v' G SH K) as (K1 & N1 & C1).
+  split; [exact K1|split; [exact N1|]]. intros x w F _ GX. destruct (Z.eq_dec x fd) as [->|N].
+  - rewrite k_get_put, Z.eqb_refl. exists v'. split; [reflexivity|congruence].
+  - apply (C1 x w F N GX).
+Qed.
+
+Lemma CNT_put_low : forall k fd v', fd < 1000 -> ~ ispipe v' -> CNT k (k_put k fd v').
+Proof.
+  intros k fd v' L NP (H & P & NX & EN). split; [|split; [cbn; lia|]].
+  - split; [apply KI_put; [exact H|lia]|]. split; [|split; [exact NX|exact EN]].
+    apply PS_put_nonpipe; [exact P| |exact NP]. intros v G IP. destruct (P fd v G IP) as (A & _). lia.
   - intros x w F _ GX. rewrite k_get_put. destruct (Z.eqb_spec x fd) as [->|N]; [lia|]. exists w. auto.
 Qed.
 
-Lemma CNT_alloc : forall k kind, CNT k (snd (k_alloc k kind)).
+Lemma CNT_alloc : forall k kind, kind <> K_PIPE_R -> kind <> K_PIPE_W -> CNT k (snd (k_alloc k kind)).
 Proof.
-  intros k kind H. unfold k_alloc. cbn [snd]. split; [|split; [cbn; lia|]].
-  - intros x. rewrite k_get_put. cbn [next_fd k_put k_set_vfds k_set_next].
-    destruct (Z.eqb_spec x (next_fd k)) as [->|N]; [intros _; lia|]. intros G. specialize (H x G). lia.
-  - intros x w _ _ GX. rewrite k_get_put. destruct (Z.eqb_spec x (next_fd k)) as [->|N].
-    + exfalso. assert (next_fd k < next_fd k) by (apply H; change (k_get k (next_fd k) <> None); congruence). lia.
-    + exists w. split; [exact GX|reflexivity].
+  intros k kind N1 N2 (H & P & NX & EN). unfold k_alloc. cbn [snd].
+  assert (FR : k_get k (next_fd k) = None).
+  { destruct (k_get k (next_fd k)) eqn:G; [|reflexivity]. assert (next_fd k < next_fd k) by (apply H; congruence). lia. }
+  split; [|split; [cbn; lia|]].
+  - split; [|split; [|split]].
+    + intros x. rewrite k_get_put. cbn [next_fd k_put k_set_vfds k_set_next].
+      destruct (Z.eqb_spec x (next_fd k)) as [->|N]; [intros _; lia|]. intros G. specialize (H x G). lia.
+    + apply PS_put_nonpipe; [apply (PS_fields k); [reflexivity|exact P]| |unfold ispipe; cbn; tauto].
+      intros v G. change (k_get (k_set_next k (next_fd k + 1)) (next_fd k)) with (k_get k (next_fd k)) in G. congruence.
+    + cbn. lia.
+    + exact EN.
+  - intros x w _ _ GX. rewrite k_get_put. destruct (Z.eqb_spec x (next_fd k)) as [->|N]; [congruence|].
+    exists w. split; [exact GX|reflexivity].
 Qed.
 
 Lemma CNT_ctl : forall k op fd ev d, CNT k (fst (k_epoll_ctl k op fd ev d)).
 Proof.
-  intros k op fd ev d. apply CNT_fields; unfold k_epoll_ctl;
+  intros k op fd ev d. apply CNT_fields.
+  - unfold k_epoll_ctl;
     repeat match goal with |- context [if ?c then _ else _] => destruct c | |- context [match ?c with _ => _ end] => destruct c end;
     reflexivity.
+  - unfold k_epoll_ctl;
+    repeat match goal with |- context [if ?c then _ else _] => destruct c | |- context [match ?c with _ => _ end] => destruct c end;
+    reflexivity.
+  - intros EN. destruct (k_epoll_ctl k op fd ev d) as [k' r] eqn:E. cbn [fst].
+    destruct (epoll_ctl_spec _ _ _ _ _ _ _ E) as (_ & _ & EP). intros e I.
+    destruct r as [err|]; [rewrite EP in I; apply EN; exact I|]. cbv zeta in EP.
+    destruct (op =? CTL_ADD); [rewrite EP in I; apply in_app_or in I; destruct I as [I|[<-|[]]]; [apply EN; exact I|reflexivity]|].
+    destruct (op =? CTL_MOD); [rewrite EP in I; apply In_ep_replace in I; destruct I as [->|I]; [reflexivity|apply EN; exact I]|].
+    rewrite EP in I. apply In_ep_remove in I. apply EN. apply I.
 Qed.
 
 Lemma k_open_get' : forall k fd v, k_open k fd = Some v -> k_get k fd = Some v.
 Proof. intros k fd v H. apply k_open_get in H. apply H. Qed.
 
+Lemma KI_fields : forall k k', vfds k' = vfds k -> next_fd k' = next_fd k -> KI k -> KI k'.
+Proof. intros k k' V N H. unfold KI, k_get in *. rewrite V, N. exact H. Qed.
+
 Lemma CNT_close : forall k fd, CNT k (fst (k_close k fd)).
 Proof.
-  intros k fd. unfold k_close. destruct (k_open k fd) as [v|] eqn:O; cbn [fst]; [|apply CNTx_refl].
-  pose proof (k_open_get' _ _ _ O) as G.
-  set (k1 := k_put k fd (with_closed v true)).
-  assert (C1 : CNT k k1) by (apply (CNT_put_keep k fd v); [exact G|reflexivity]).
-  assert (C2 : CNT k (if (vkind v =? K_PIPE_R) || (vkind v =? K_PIPE_W)
-                      then match k_get k1 (vpeer v) with
-                           | Some p => k_put k1 (vpeer v) (with_peer p (vpeer p) false)
-                           | None => k1 end else k1)).
-  { destruct ((vkind v =? K_PIPE_R) || (vkind v =? K_PIPE_W)); [|exact C1].
-    destruct (k_get k1 (vpeer v)) as [p|] eqn:GP; [|exact C1].
-    eapply CNTx_trans; [exact C1|]. apply (CNT_put_keep k1 (vpeer v) p); [exact GP|reflexivity]. }
-  eapply CNTx_trans; [exact C2|]. apply CNT_fields; reflexivity.
+  intros k fd (H & P & NX & EN). split; [split; [|split; [apply PS_close; exact P|split]]|split].
+  - unfold k_close. destruct (k_open k fd) as [v|] eqn:O; cbn [fst]; [|exact H].
+    pose proof (k_open_get' _ _ _ O) as G.
+    match goal with |- KI (k_set_ep ?K _) => apply (KI_fields K); [reflexivity|reflexivity|] end.
+    assert (K1 : KI (k_put k fd (with_closed v true))) by (apply KI_put; [exact H|apply H; congruence]).
+    destruct ((vkind v =? K_PIPE_R) || (vkind v =? K_PIPE_W)); [|exact K1].
+    destruct (k_get (k_put k fd (with_closed v true)) (vpeer v)) as [p|] eqn:GP; [|exact K1].
+    apply KI_put; [exact K1|]. apply K1. congruence.
+  - unfold k_close. destruct (k_open k fd) as [v|]; cbn [fst]; [|exact NX].
+    destruct ((vkind v =? K_PIPE_R) || (vkind v =? K_PIPE_W)); [destruct (k_get _ (vpeer v))|]; cbn; exact NX.
+  - intros e I. destruct (k_close_spec k fd) as (_ & _ & SUB). apply EN. apply SUB. exact I.
+  - unfold k_close. destruct (k_open k fd) as [v|]; cbn [fst]; [|lia].
+    destruct ((vkind v =? K_PIPE_R) || (vkind v =? K_PIPE_W)); [destruct (k_get _ (vpeer v))|]; cbn; lia.
+  - intros x w _ _ GX. unfold k_close. destruct (k_open k fd) as [v|] eqn:O; cbn [fst]; [|exists w; auto].
+    pose proof (k_open_get' _ _ _ O) as G.
+    match goal with |- exists v', k_get (k_set_ep ?K _) x = Some v' /\ _ => change (exists v', k_get K x = Some v' /\ vcnt v' = vcnt w) end.
+    assert (S1 : exists w1, k_get (k_put k fd (with_closed v true)) x = Some w1 /\ vcnt w1 = vcnt w).
+    { rewrite k_get_put. destruct (Z.eqb_spec x fd) as [->|N]; [|exists w; auto].
+      rewrite G in GX. inversion GX; subst w. exists (with_closed v true). auto. }
+    destruct ((vkind v =? K_PIPE_R) || (vkind v =? K_PIPE_W)); [|exact S1].
+    destruct (k_get (k_put k fd (with_closed v true)) (vpeer v)) as [p|] eqn:GP; [|exact S1].
+    destruct S1 as (w1 & G1 & E1). rewrite k_get_put. destruct (Z.eqb_spec x (vpeer v)) as [->|N]; [|exists w1; auto].
+    rewrite GP in G1. inversion G1; subst w1. exists (with_peer p (vpeer p) false). auto.
 Qed.
+
+Lemma shape_refl_timer : forall v d f, shape (with_timer v d f) v. Proof. intros; repeat split. Qed.
+Lemma shape_cnt : forall v c, shape (with_cnt v c) v. Proof. intros; repeat split. Qed.
+Lemma shape_cond : forall v c, shape (with_cond v c) v. Proof. intros; repeat split. Qed.
 
 Lemma CNT_settime : forall k fd d, CNT k (k_timerfd_settime k fd d).
 Proof.
   intros k fd d. unfold k_timerfd_settime. destruct (k_open k fd) as [v|] eqn:O; [|apply CNTx_refl].
-  apply (CNT_put_keep k fd v); [apply k_open_get'; exact O|reflexivity].
+  apply (CNT_put_keep k fd v); [apply k_open_get'; exact O|apply shape_refl_timer|reflexivity].
 Qed.
 
 Lemma CNTx_read : forall k fd c, CNTx (fun x => x = fd) k (fst (k_read k fd c)).
@@ -114,7 +248,7 @@ Proof.
   intros k fd c. unfold k_read. destruct (k_open k fd) as [v|] eqn:O; cbn [fst]; [|apply CNTx_refl].
   pose proof (k_open_get' _ _ _ O) as G.
   repeat match goal with |- context [if ?c then _ else _] => destruct c end; cbn [fst];
-    try apply CNTx_refl; apply (CNTx_put k fd v); exact G.
+    try apply CNTx_refl; apply (CNTx_put k fd v); try exact G; first [apply shape_cnt|apply shape_refl_timer].
 Qed.
 
 (* reading the timer descriptor changes no counter *)
@@ -123,7 +257,7 @@ Proof.
   intros k fd c v O KD. unfold k_read. rewrite O, KD.
   change (K_TIMERFD =? K_EVENTFD) with false. change (K_TIMERFD =? K_PIPE_R) with false. change (K_TIMERFD =? K_TIMERFD) with true.
   cbv iota. destruct (has (k_cond k fd) B_IN); cbn [fst]; [|apply CNTx_refl].
-  apply (CNT_put_keep k fd v); [apply k_open_get'; exact O|reflexivity].
+  apply (CNT_put_keep k fd v); [apply k_open_get'; exact O|apply shape_refl_timer|reflexivity].
 Qed.
 
 (* a write changes the counter of the descriptor itself (eventfd) or of its peer (pipe) *)
@@ -136,44 +270,64 @@ Proof.
   destruct (Z.eqb_spec (vkind v) K_EVENTFD) as [KE|NE].
   - destruct (c <? 8); cbn [fst]; [apply CNTx_refl|].
     apply (CNTx_weaken (fun y => y = fd)); [intros y ->; exists v; split; [reflexivity|left; auto]|].
-    apply (CNTx_put k fd v); exact G.
+    apply (CNTx_put k fd v); [exact G|apply shape_cnt].
   - destruct (Z.eqb_spec (vkind v) K_PIPE_W) as [KW|NW]; [|cbn [fst]; apply CNTx_refl].
     destruct (negb (vpeer_open v)); cbn [fst]; [apply CNTx_refl|].
     destruct (k_get k (vpeer v)) as [r|] eqn:GR; cbn [fst]; [|apply CNTx_refl].
     destruct (Z.min c (65536 - vcnt r) <=? 0); cbn [fst]; [apply CNTx_refl|].
     apply (CNTx_weaken (fun y => y = vpeer v)); [intros y ->; exists v; split; [reflexivity|right; auto]|].
-    apply (CNTx_put k (vpeer v) r); exact GR.
+    apply (CNTx_put k (vpeer v) r); [exact GR|apply shape_cnt].
 Qed.
+
+Lemma k_get_set_next : forall k n x, k_get (k_set_next k n) x = k_get k x.
+Proof. reflexivity. Qed.
 
 Lemma CNT_pipe : forall k, CNT k (fst (k_pipe k)).
 Proof.
   intros k. unfold k_pipe. destruct (emfile (flt k)); cbn [fst]; [apply CNTx_refl|].
-  pose proof (CNT_alloc k K_PIPE_R) as A1. destruct (k_alloc k K_PIPE_R) as [r k1] eqn:E1. cbn [snd] in A1.
-  pose proof (CNT_alloc k1 K_PIPE_W) as A2. destruct (k_alloc k1 K_PIPE_W) as [w k2] eqn:E2. cbn [snd] in A2.
-  cbn [fst].
-  assert (R1 : r = next_fd k /\ k_get k1 r = Some (vfd0 K_PIPE_R) /\ next_fd k1 = next_fd k + 1).
-  { unfold k_alloc in E1. inversion E1; subst. rewrite k_get_put, Z.eqb_refl. repeat split. }
-  assert (R2 : w = next_fd k1 /\ k_get k2 w = Some (vfd0 K_PIPE_W) /\ k_get k2 r = Some (vfd0 K_PIPE_R)).
-  { unfold k_alloc in E2. inversion E2; subst. rewrite !k_get_put, Z.eqb_refl. destruct R1 as (-> & G1 & N1).
-    split; [reflexivity|split; [reflexivity|]]. destruct (Z.eqb_spec (next_fd k) (next_fd k1)); [lia|exact G1]. }
-  destruct R1 as (Er & G1 & N1). destruct R2 as (Ew & G2w & G2r).
-  eapply CNTx_trans; [exact A1|]. eapply CNTx_trans; [exact A2|].
-  eapply CNTx_trans; [apply (CNT_put_keep k2 r (vfd0 K_PIPE_R)); [exact G2r|reflexivity]|].
-  apply (CNT_put_keep _ w (vfd0 K_PIPE_W)); [|reflexivity].
-  rewrite k_get_put. destruct (Z.eqb_spec w r); [lia|exact G2w].
+  intros (H & P & NX & EN). unfold k_alloc. cbn [fst snd].
+  set (r := next_fd k). set (w := next_fd k + 1).
+  assert (FR : forall x, r <= x -> k_get k x = None).
+  { intros x L. destruct (k_get k x) eqn:G; [|reflexivity]. assert (x < next_fd k) by (apply H; congruence). unfold r in L. lia. }
+  match goal with |- KP ?K /\ _ => set (k4 := K) end.
+  assert (G4 : forall x, k_get k4 x = if x =? w then Some (with_peer (vfd0 K_PIPE_W) r true)
+                                     else if x =? r then Some (with_peer (vfd0 K_PIPE_R) w true) else k_get k x).
+  { intros x. unfold k4. repeat (rewrite ?k_get_put, ?k_get_set_next). cbn [next_fd k_put k_set_vfds k_set_next]. unfold w, r.
+    destruct (Z.eqb_spec x (next_fd k + 1)); [reflexivity|]. destruct (Z.eqb_spec x (next_fd k)); [reflexivity|].
+    destruct (Z.eqb_spec x (next_fd k + 1)); [contradiction|]. destruct (Z.eqb_spec x (next_fd k)); [contradiction|]. reflexivity. }
+  assert (N4 : next_fd k4 = next_fd k + 2) by (unfold k4; cbn; lia).
+  split; [split; [|split; [|split; [lia|exact EN]]]|split].
+  - intros x. rewrite G4, N4. unfold w, r. destruct (Z.eqb_spec x (next_fd k + 1)); [intros _; lia|].
+    destruct (Z.eqb_spec x (next_fd k)); [intros _; lia|]. intros G. specialize (H x G). lia.
+  - intros x v GX IP. rewrite G4 in GX.
+    destruct (Z.eqb_spec x w) as [->|NW].
+    + inversion GX; subst v. cbn [vpeer with_peer vkind vfd0 vpeer_open vclosed]. split; [unfold w; lia|]. split; [unfold r; lia|].
+      exists (with_peer (vfd0 K_PIPE_R) w true). rewrite G4. unfold w, r.
+      destruct (Z.eqb_spec (next_fd k) (next_fd k + 1)); [lia|]. rewrite Z.eqb_refl.
+      split; [reflexivity|]. split; [reflexivity|]. split; [left; auto|]. intros _. reflexivity.
+    + destruct (Z.eqb_spec x r) as [->|NR].
+      * inversion GX; subst v. cbn [vpeer with_peer vkind vfd0 vpeer_open vclosed]. split; [unfold r; lia|]. split; [unfold w; lia|].
+        exists (with_peer (vfd0 K_PIPE_W) r true). rewrite G4, Z.eqb_refl.
+        split; [reflexivity|]. split; [reflexivity|]. split; [right; auto|]. intros E. discriminate E.
+      * destruct (P x v GX IP) as (A & B & p & GP & PP & KK & OO). split; [exact A|split; [exact B|]].
+        exists p. rewrite G4. destruct (Z.eqb_spec (vpeer v) w) as [E|_]; [rewrite E, FR in GP; [discriminate|unfold w, r; lia]|].
+        destruct (Z.eqb_spec (vpeer v) r) as [E|_]; [rewrite E, FR in GP; [discriminate|lia]|]. auto.
+  - lia.
+  - intros x v F _ GX. rewrite G4. destruct (Z.eqb_spec x w) as [->|NW]; [rewrite FR in GX; [discriminate|unfold w, r; lia]|].
+    destruct (Z.eqb_spec x r) as [->|NR]; [rewrite FR in GX; [discriminate|lia]|]. exists v. auto.
 Qed.
 
 Lemma CNT_eventfd : forall k b, CNT k (fst (k_eventfd k b)).
 Proof.
   intros k b. unfold k_eventfd.
   destruct (emfile (flt k)); [apply CNTx_refl|]. destruct (no_eventfd (flt k) || (b && no_eventfd2 (flt k))); [apply CNTx_refl|].
-  pose proof (CNT_alloc k K_EVENTFD) as A. destruct (k_alloc k K_EVENTFD) as [fd k1]. exact A.
+  pose proof (CNT_alloc k K_EVENTFD ltac:(discriminate) ltac:(discriminate)) as A. destruct (k_alloc k K_EVENTFD) as [fd k1]. exact A.
 Qed.
 
 Lemma CNT_timerfd_create : forall k, CNT k (fst (k_timerfd_create k)).
 Proof.
   intros k. unfold k_timerfd_create. destruct (no_timerfd (flt k)); [apply CNTx_refl|].
-  pose proof (CNT_alloc k K_TIMERFD) as A. destruct (k_alloc k K_TIMERFD) as [fd k1]. exact A.
+  pose proof (CNT_alloc k K_TIMERFD ltac:(discriminate) ltac:(discriminate)) as A. destruct (k_alloc k K_TIMERFD) as [fd k1]. exact A.
 Qed.
 
 Lemma CNT_grab : forall k u, CNT k (fst (fst (eventfd_grab k u))).
@@ -198,15 +352,22 @@ Proof.
   - apply OP.
 Qed.
 
-Lemma CNT_set_cond : forall k i c, 0 <= i < 16 -> 1000 <= next_fd k -> CNT k (k_set_cond k i c).
+Lemma np_cond : forall v c, ~ ispipe v -> ~ ispipe (with_cond v c). Proof. intros v c H. exact H. Qed.
+
+Lemma CNT_set_cond : forall k i c, 0 <= i < 16 -> CNT k (k_set_cond k i c).
 Proof.
-  intros k i c I N. unfold k_set_cond. destruct (k_get k (100 + i)) as [v|]; [|apply CNTx_refl].
-  apply CNT_put_low; lia.
+  intros k i c I. unfold k_set_cond. destruct (k_get k (100 + i)) as [v|] eqn:G; [|apply CNTx_refl].
+  intros K. pose proof K as (_ & P & _). revert K. apply CNT_put_low; [lia|].
+  intros IP. destruct (P _ _ G IP) as (A & _). lia.
 Qed.
-Lemma CNT_user_close : forall k i, 0 <= i < 16 -> 1000 <= next_fd k -> CNT k (k_user_close k i).
+Lemma CNT_user_close : forall k i, 0 <= i < 16 -> CNT k (k_user_close k i).
 Proof.
-  intros k i I N. unfold k_user_close. destruct (k_get k (100 + i)) as [v|]; [|apply CNTx_refl].
-  apply CNT_put_low; lia.
+  intros k i I. unfold k_user_close. destruct (k_get k (100 + i)) as [v|] eqn:G; [|apply CNTx_refl].
+  intros K. pose proof K as (_ & P & _). revert K. apply CNT_put_low; [lia|].
+  intros IP. destruct (P _ _ G IP) as (A & _). lia.
 Qed.
-Lemma CNT_user_fd : forall k i, 0 <= i < 16 -> 1000 <= next_fd k -> CNT k (k_user_fd k i).
-Proof. intros k i I N. unfold k_user_fd. apply CNT_put_low; lia. Qed.
+Lemma CNT_user_fd : forall k i, 0 <= i < 16 -> CNT k (k_user_fd k i).
+Proof. intros k i I. unfold k_user_fd. apply CNT_put_low; [lia|unfold ispipe; cbn; intros [H|H]; discriminate H]. Qed.
+
+Lemma CNT_clock : forall k c, CNT k (k_set_clock k c). Proof. intros; apply CNT_fields; [reflexivity|reflexivity|intros H; exact H]. Qed.
+Lemma CNT_nwait : forall k n, CNT k (k_set_nwait k n). Proof. intros; apply CNT_fields; [reflexivity|reflexivity|intros H; exact H]. Qed.
